@@ -220,6 +220,10 @@ long k_write(int fd, const void *buf, size_t n) {
         return done((long)n, 0, faulted);
     }
     if (d.flags & O_APPEND) d.off = (long)node.content.size();
+    if (G.w.fsize_limit >= 0 && d.off + (long)n > G.w.fsize_limit) {   // the process's file size limit (setrlimit RLIMIT_FSIZE, ulimit -f)
+        if (d.off >= G.w.fsize_limit) { G.hist[ei].mark |= MARK_SIGXFSZ; G.counters["sigxfsz"]++; return done(-1, EFBIG, false); }
+        n = (size_t)(G.w.fsize_limit - d.off); G.counters["fsize-partial"]++;
+    }
     long growth = d.off + (long)n - (long)node.content.size();
     if (growth < 0) growth = 0;
     if (G.w.disk_free >= 0 && growth > G.w.disk_free) {
@@ -256,8 +260,9 @@ long k_lseek(int fd, long off, int whence) {
 
 static std::map<int, void *> g_stdio_bufs;
 
+extern bool g_sched_hint_close;
 int k_close(int fd) {
-    sched_point(SP_IO); sim_step();
+    g_sched_hint_close = t_in_sut != 0; sched_point(SP_IO); g_sched_hint_close = false; sim_step();
     auto it = G.fds.find(fd);
     Fault f; bool faulted = sim_fault("close", f);
     { Ev &e = sim_event("close", it == G.fds.end() ? "" : it->second.path); e.a = it == G.fds.end() ? -1 : it->second.id; }
